@@ -4,24 +4,23 @@ PROP = dict(
         "statime_algo::estimator::EstimatorState::<NoAllocKalmanStorage<(),25>>::{add_clock,remove_clock,add_external_clock,remove_external_clock,add_link,remove_link,progress_time,clock_offset,clock_frequency,is_internal_clock,is_external_clock}",
         "statime_algo::estimator::{ClockInfoList,LinkInfoList,ExternalClockList}::{add,remove,update_indices,contains}",
         "statime_algo::matrix::Matrix::<[f64;25]>::{new,new_vec,splice_vec,splice_square,extend_vec,extend,zero,index}",
-        "statime_algo::KalmanController::<NoAllocKalmanStorage<FixedClock,4>,FixedClock>::{new,remove_clock,add_external_clock,remove_external_clock,create_untracked_link,clock_offset,clock_frequency} + LinkFilter counterparts",
-    ],
+            ],
     bounds="estimator: 2 clock ids + 1 link id; <= 3 state rows (1 clock + 1 link to an external clock) in a 9-entry storage, concrete storage NoAllocKalmanStorage (fixed arrays + ArrayVec; the estimator/matrix/filter code is generic and shared with the heap storage); "
-           "pre-state = scripted layout c0 L (c1 external); operations: remove_clock(c0) and duplicate add_clock(c1); "
+           "pre-states = scripted layouts c0 L and L c0 (c1 external); operations: remove_clock(c0), duplicate add_clock(c1), remove_link; "
            "every state-vector and covariance entry an arbitrary f64 bit pattern (NaN and infinities included), compared bit-wise; "
-           "controller: system clock + one external clock + one untracked link, every entry symbolic, one of 6 operations with symbolic identifiers (all usize)",
-    outside="every other layout/operation pair: the harness module contains c42_ops_b (layout L c0, remove L) and c42_ops_s{0..5}_{clock,ext,link} (six layouts with up to 2 clocks + 1 link x all 10 operations) which are NOT registered: kani-driver exhausts 8 GB parsing CBMC's per-check traces once the run exceeds ~300k symbolic-execution steps with by-value array storage (measured: 316k steps fails, 278k passes); controller with a second steered clock or tracked links (by-value moves of the 16-slot link list / LinkNoiseEstimator exhaust 8 GB); 3 or more clocks / 2 or more links (9x9 matrices: symbolic execution of the array-moving code did not finish in 15 min; with the heap storage Vec growth through realloc leaves every list loop unbounded for the symbolic executor); "
+           "",
+    outside="the controller-level clone-then-replace discipline (harness c42_ctl: KalmanController with symbolic identifiers, failing calls leave everything unchanged) is written but NOT registered: 765k steps with only two operation arms, CBMC exhausts 8 GB in propositional reduction (the controller state carries the link-noise ring buffers by value); every other layout/operation pair: the harness module contains c42_ops_s{0..5}_{clock,ext,link} (six layouts with up to 2 clocks + 1 link x all 10 operations) which are NOT registered: kani-driver exhausts 8 GB parsing CBMC's per-check traces once the run exceeds ~300k symbolic-execution steps with by-value array storage (measured: 316k steps fails, 278k passes); controller with a second steered clock or tracked links (by-value moves of the 16-slot link list / LinkNoiseEstimator exhaust 8 GB); 3 or more clocks / 2 or more links (9x9 matrices: symbolic execution of the array-moving code did not finish in 15 min; with the heap storage Vec growth through realloc leaves every list loop unbounded for the symbolic executor); "
             "measurement() and progress_time() to a later time (matrix products of symbolic f64: outside, see C06 rationale); variance of a newly added element (powi(2): CBMC has no exact model); "
             "LinkNoiseEstimator state of tracked links; the values returned by clock_offset/clock_frequency for existing clocks are read through a hook using the same get_clock_info(..).offset_index() lookup (calling the queries costs a symbolic sqrt each)",
     assumptions=[
         "c42_time: both timestamps < 2^126 (first half of the wrapping 128-bit range, so that 'earlier' is the numeric order)",
-        "operations on the estimator follow the controller's clone-then-replace discipline (a failing call leaves the caller's copy untouched by construction; c42_ctl checks the discipline itself on KalmanController)",
+        "operations on the estimator follow the controller's clone-then-replace discipline (a failing call leaves the caller's copy untouched by construction; the discipline itself in KalmanController is outside, see outside)",
     ],
     stub_notes=["no stubs; ClockId/LinkId built from raw parts through hook constructors (ClockId::new/LinkId::new draw from a global counter)"],
     harnesses=[
         H(ST, "c42", "c42_ops", "3-row layout c0 L (x1 external), remove c0 (the link row shifts to the front): survivors' values and all pairwise covariances bit-identical, index layout stays a bijection onto the rows, success iff identifier rules allow", timeout=1200),
         H(ST, "c42", "c42_ops_c", "3-row layout c0 L with external c1, add_clock(c1): duplicate id rejected", timeout=1200),
+        H(ST, "c42", "c42_ops_b", "3-row layout L c0 (x1 external), remove_link: the clock rows shift to the front, values and covariances bit-identical", timeout=1200),
         H(ST, "c42", "c42_time", "progress_time to an earlier time is NonMonotonicTimeProgression; to the current time leaves time, state and covariance bit-identical", timeout=900),
-        H(ST, "c42", "c42_ctl", "KalmanController: unknown/duplicate/wrong-kind identifiers fail and leave every entry, the dimension and the clock/link lists unchanged; succeeding calls (add/remove external clock, new link) leave the clock's entries unchanged", timeout=900),
     ],
 )
